@@ -429,7 +429,7 @@ impl Check for C16 {
         CheckInfo {
             id: "C16",
             level: "model_checking",
-            rule: "parallel and sequence acts over lists of length 0..3 with bodies {irq; irq,msg; msg,irq; irq,irq}, parallel and sequential blocks, a sequence of parallels, lifecycle hooks with every `on` (created, completed, before_update, updated, step) on a workflow, a step and an act (with skipped acts and steps in the model), push into an open step at every moment; every order of queued tasks and client answers (A-mode exhaustive, deviation-bounded where three interrupts are open); oracle: number of generated instances, $index / $value per group, all groups of a parallel open at once, group order of a sequence, body order inside a group, generator ends after everything it generated and before its successor, hook firings = matching lifecycle events of the trace, one task per accepted push".into(),
+            rule: "parallel and sequence acts over lists of length 0..3 with bodies {irq; irq,msg; msg,irq; irq,irq}, parallel and sequential blocks, a sequence of parallels, lifecycle hooks with every `on` (created, completed, before_update, updated, step) on a workflow, a step and an act (with skipped acts and steps in the model), the same hooks on a workflow and a step whose acts are generated by a parallel act, a sequence act or a block, push into an open step at every moment; every order of queued tasks and client answers (A-mode exhaustive, deviation-bounded where three interrupts are open); oracle: number of generated instances, $index / $value per group, all groups of a parallel open at once, group order of a sequence, body order inside a group, generator ends after everything it generated and before its successor, hook firings = matching lifecycle events of the trace, one task per accepted push".into(),
             assumptions: vec!["activities are atomic".into()],
             budget_s: tier.pick(50, 600),
             exhaustive_when_uncapped: true,
